@@ -36,7 +36,7 @@ Qed.
 Section Fixed.
 Variable E : env.
 Variable flen : Z.
-Hypothesis Hcfg : e_cfg E = cfg_fixed.
+Hypothesis Hcfg : cfg_ge_now (e_cfg E).
 Hypothesis Hflen : 0 <= flen < 2147483648.
 Hypothesis Hfuel : flen < Z.of_nat (e_fuel E).
 Hypothesis Hcap : alloc_bound_grid flen <= e_cap E.
@@ -72,16 +72,24 @@ Proof.
     + apply Z.ltb_ge in C. split; [lia|split; [reflexivity|]]. intros _. unfold zlen. rewrite frev_length. lia.
 Qed.
 
-Theorem dbgrid_fixed : forall m, len m <= flen ->
-  rspec (16 * flen * flen + 256 * flen) wf_dbgrid m (dbgrid_deserialize E m).
+Definition gspec (m : mon) (r : res (option dbgrid)) : Prop :=
+  match r with
+  | Ret o m' => len m' <= len m /\ galloc m <= galloc m' /\
+                (fix_rank (e_cfg E) = true -> galloc m' <= galloc m + (16 * flen * flen + 300 * flen)) /\
+                match o with Some x => fix_rank (e_cfg E) = true -> wf_dbgrid x | None => True end
+  | Bad b => is_throw16 b = true /\ fix_rank (e_cfg E) = false
+  end.
+Ltac earlyg := split; [lia|split; [nia|split; [intros _; nia|exact I]]].
+
+Theorem dbgrid_spec : forall m, len m <= flen -> gspec m (dbgrid_deserialize E m).
 Proof.
-  intros m Hm. unfold dbgrid_deserialize, rspec. pose proof Hcap1 as HC1. unfold alloc_bound, alloc_bound_grid in *.
+  intros m Hm. unfold dbgrid_deserialize, gspec. pose proof Hcap1 as HC1. unfold alloc_bound, alloc_bound_grid in *.
   assert (Hlm : 0 <= len m) by (unfold len; lia).
-  assert (HFC : fix_counts (e_cfg E) = true) by (rewrite Hcfg; reflexivity).
-  assert (HFG : fix_grid (e_cfg E) = true) by (rewrite Hcfg; reflexivity).
+  assert (HFC : fix_counts (e_cfg E) = true) by (destruct Hcfg as [H1' [H2' [H3' H4']]]; assumption).
+  assert (HFG : fix_grid (e_cfg E) = true) by (destruct Hcfg as [H1' [H2' [H3' H4']]]; assumption).
   pose proof (read_int_reads m) as R1. destruct (read_int m) as [ondim m1|b]; cbn [bind reads] in *; [|contradiction].
   destruct R1 as [L1 G1].
-  destruct (count_ok E (opt_default 0 ondim) m1) eqn:CK; cbn [negb]; [|split; [lia|split; [nia|exact I]]].
+  destruct (count_ok E (opt_default 0 ondim) m1) eqn:CK; cbn [negb]; [|earlyg].
   apply count_ok_fixed in CK; [|assumption]. set (ndim := opt_default 0 ondim) in *.
   rewrite alloc_ok by lia. cbn [bind].
   set (m2 := mkM (ms m1) (galloc m1 + ndim * 28)).
@@ -96,7 +104,7 @@ Proof.
   destruct (match ondim with Some _ => grid_header (e_fuel E) ndim 0 [] m2 | None => Ret (false, []) m2 end) as [[ret rows] m3|b];
     cbn [bind]; [|contradiction].
   destruct HH as [L3 [G3 W3]].
-  rewrite HFG. destruct ret; cbn [negb andb]; [|split; [lia|split; [nia|exact I]]].
+  rewrite HFG. destruct ret; cbn [negb andb]; [|earlyg].
   rewrite alloc_ok by nia. cbn [bind]. rewrite alloc_ok by (simpl; nia). cbn [bind].
   set (m5 := mkM _ _).
   assert (L5 : len m5 = len m3) by reflexivity.
@@ -105,23 +113,23 @@ Proof.
   set (nx := map (fun r => fst (fst (fst r))) rows).
   set (g := grid_define ndim nx (map (fun r => snd (fst (fst r))) rows) (map (fun r => snd (fst r)) rows) (map snd rows)).
   cbn [andb].
-  destruct (existsb (fun v => v <? 0) nx || existsb num_neg (g_dx g)) eqn:CN; [split; [lia|split; [nia|exact I]]|].
+  destruct (existsb (fun v => v <? 0) nx || existsb num_neg (g_dx g)) eqn:CN; [earlyg|].
   apply orb_false_iff in CN. destruct CN as [CN1 CN2].
   assert (Hg : g = mkGrid ndim nx (map (fun r => snd (fst (fst r))) rows) (map (fun r => snd (fst r)) rows)
                       (if ndim =? 2 then [nth 0 (map snd rows) zero; zero] else map snd rows)).
   { unfold g in *. unfold grid_define in *. rewrite CN1 in *. 
     destruct (existsb num_neg (map (fun r => snd (fst r)) rows)) eqn:CD; [simpl in CN2; congruence|reflexivity]. }
-  pose proof (db_fixed E flen Hcfg Hflen Hfuel HC1 (Some (ntotal32 ndim nx, ntotal_exact ndim nx)) m5 (ntotal32_wrap ndim nx) ltac:(lia)) as HD.
-  unfold rspec in HD.
-  destruct (db_deserialize E (Some (ntotal32 ndim nx, ntotal_exact ndim nx)) m5) as [odb m6|b]; cbn [bind]; [|contradiction].
-  destruct HD as [D1 [D2 D3]].
-  destruct odb as [d|]; [|split; [lia|split; [nia|exact I]]].
-  split; [lia|split; [nia|]].
-  destruct D3 as [D3 D4]. unfold wf_dbgrid. cbn [dg_grid dg_db]. split; [|split; [assumption|]].
+  pose proof (db_spec E flen Hcfg Hflen Hfuel HC1 (Some (ntotal32 ndim nx, ntotal_exact ndim nx)) m5 (ntotal32_wrap ndim nx) ltac:(lia)) as HD.
+  unfold dspec in HD.
+  destruct (db_deserialize E (Some (ntotal32 ndim nx, ntotal_exact ndim nx)) m5) as [odb m6|b]; cbn [bind]; [|exact HD].
+  destruct HD as [D1 [D2 [D3 D4]]].
+  destruct odb as [d|]; [|split; [lia|split; [nia|split; [intros HR; specialize (D3 HR); nia|exact I]]]].
+  split; [lia|split; [nia|split; [intros HR; specialize (D3 HR); nia|]]].
+  intros HR. specialize (D4 HR). destruct D4 as [D4 D5]. unfold wf_dbgrid. cbn [dg_grid dg_db]. split; [|split; [assumption|]].
   - rewrite Hg. unfold wf_grid. cbn [g_ndim g_nx g_x0 g_dx g_angles]. unfold zlen in *. unfold nx. rewrite !map_length.
     split; [lia|split; [assumption|split; [assumption|split; [assumption|split]]]].
     + destruct (ndim =? 2) eqn:C2; [apply Z.eqb_eq in C2; simpl; lia|rewrite map_length; assumption].
     + apply existsb_false_Forall in CN1. eapply Forall_impl; [|exact CN1]. simpl. intros a Ha. apply Z.ltb_ge in Ha. assumption.
-  - rewrite D4. unfold grid_ntotal. rewrite Hg. reflexivity.
+  - rewrite D5. unfold grid_ntotal. rewrite Hg. reflexivity.
 Qed.
 End Fixed.
